@@ -10,8 +10,8 @@ CONSTANT Full          \* TRUE: full product targets x translations x tokens, un
 CONSTANTS DEV_SmallAngleLinearised,   \* translation_rotation_matrix uses cos = 1, sin = a for |a| <= 0.05
           DEV_EnvironmentNotMoved     \* EnvironmentObstacle has no translate_rotate
 
-VARIABLES tgt, t, rot, mix, undo
-vars == <<tgt, t, rot, mix, undo>>
+VARIABLES tgt, t, rot, mix, undo, seed
+vars == <<tgt, t, rot, mix, undo, seed>>
 
 Trans == {<<0, 0>>, <<3, -2>>, <<-50, 70>>}
 (* one or two tokens per angle class, both sides of the 0.05 branch, both signs, a full turn                 *)
@@ -24,19 +24,30 @@ ASSUME {AngleClass(r) : r \in RotSample} = {"axis", "generic", "small<=0.05", "s
 ASSUME {AngleClass(r) : r \in Rot} = {"axis", "generic", "small<=0.05", "small>0.05", "near2pi"}
 
 Case(g, tt, r, m, u) == [tgt |-> g, t |-> tt, rot |-> r, mix |-> m, undo |-> u]
-AllT == Targets(World)
+AllT == Targets(WorldOf(Roles))
 Cases ==
     (IF Full
      THEN {Case(g, tt, r, Roles, IF tt = <<0, 0>> THEN "none" ELSE IF tt = <<3, -2>> THEN "two" ELSE "one") :
                 g \in AllT, tt \in Trans, r \in Rot}
      ELSE {c \in {Case(g, <<3, -2>>, r, Roles, IF Len(g) = 1 THEN "two" ELSE "none") : g \in AllT, r \in Rot} :
-                Len(c.tgt) = 1 \/ c.rot[4] = 0 \/ c.rot \in RotSample}      \* full turns: roots and the sampled tokens
-          \cup {Case(g, <<-50, 70>>, r, Roles, u) : g \in AllT, r \in RotSample, u \in {"two", "one"}}
+                Len(c.tgt) = 1 \/ c.rot \in RotSample \/ (c.rot[4] = 0 /\ (c.rot[3] \in {1, 5} \/ IsSmallTok(c.rot)))}
+                \* the whole table at the two roots; below: axis, (3,4,5) octants, all small angles, the sampled tokens
+          \cup {Case(g, <<-50, 70>>, r, Roles, "two") : g \in AllT, r \in RotSample}
+          \cup {Case(g, <<-50, 70>>, r, Roles, "one") : g \in AllT, r \in MixRot}
           \cup {Case(g, <<0, 0>>, r, Roles, "none") : g \in AllT, r \in RotSample})
     \cup {Case(<<SC>>, <<3, -2>>, r, m, "none") : r \in MixRot, m \in (SUBSET Roles) \ {Roles}}
+    \cup UNION {{Case(g, <<3, -2>>, r, {part}, "none") : g \in Targets(WorldOf({part})), r \in IF Full THEN Rot ELSE RotSample}
+                : part \in Parts}          \* the state-class universes: every class, every level, the sampled tokens
 
-Init == \E c \in Cases : tgt = c.tgt /\ t = c.t /\ rot = c.rot /\ mix = c.mix /\ undo = c.undo
-Next == UNCHANGED vars
+(* One state per case.  TLC computes initial states on a single thread, so the cases hang below NSeeds idle seed      *)
+(* states (seed k owns the cases of bucket k): the laws are then evaluated by all workers.            *)
+NSeeds == 16
+Bucket(c) == (c.rot[1] + 3 * c.rot[2] + 5 * Len(c.tgt) + 7 * c.t[1] + Len(c.tgt[Len(c.tgt)][2])) % NSeeds
+Live == seed = -1
+Init == seed \in 0..(NSeeds - 1) /\ tgt = <<>> /\ t = <<0, 0>> /\ rot = Ident /\ mix = {} /\ undo = "seed"
+Next == /\ seed >= 0
+        /\ \E c \in Cases : Bucket(c) = seed /\ tgt' = c.tgt /\ t' = c.t /\ rot' = c.rot /\ mix' = c.mix /\ undo' = c.undo
+        /\ seed' = -1
 Spec == Init /\ [][Next]_vars
 
 W == WorldOf(mix)
@@ -44,7 +55,7 @@ ScopeComps == {c \in Range(W) : InScope(tgt, c)}
 ScopePts   == UNION {Range(c.pts) : c \in ScopeComps}
 ScopeOris  == UNION {Range(c.oris) : c \in ScopeComps}
 
-TypeOK == tgt \in Targets(W) /\ rot \in Rot /\ mix \subseteq Roles /\ ScopeComps # {}
+TypeOK == tgt \in Targets(W) /\ rot \in Rot /\ mix \subseteq Roles \cup Parts /\ ScopeComps # {}
 (* every pairwise squared distance inside the moved sub-tree is preserved (cross-multiplied by den^2)        *)
 LawDist == \A p \in ScopePts : \A q \in ScopePts : DistLaw(rot, t, p, q)
 (* polygon signed areas are preserved: no shear, no scaling, no reflection                                   *)
@@ -57,6 +68,11 @@ LawArea == rot \in AlgRot =>
     /\ \A c \in ScopeComps : c.kind = "lanelet_right" => AreaLaw(rot, t, LaneletRing(c.path)) /\ Area2(LaneletRing(c.path)) > 0
 (* rotated directions stay unit vectors *)
 LawUnit == rot \in AlgRot => \A o \in ScopeOris : UnitLaw(o, rot)
+(* a rotated velocity keeps its magnitude; a point-mass heading turns with it (direction of the image = heading + a) *)
+LawVel == rot \in AlgRot => \A c \in ScopeComps : \A i \in DOMAIN c.vels :
+            LET v == c.vels[i]  w == Moved(c, t, rot).vels[i]
+            IN /\ w[1] * w[1] + w[2] * w[2] = rot[3] * rot[3] * (v[1] * v[1] + v[2] * v[2])
+               /\ c.vrule = "rotate" /\ v[1] * v[1] + v[2] * v[2] = 25 => <<w[1], w[2]>> = <<AngleSum(<<v[1], v[2], 5>>, rot)[1], AngleSum(<<v[1], v[2], 5>>, rot)[2]>>
 (* TR followed by its Undo (either form) is the identity *)
 LawInv == rot \in AlgRot => AngleSum(<<rot[1], rot[2], rot[3]>>, Inv(rot)) = <<rot[3] * rot[3], 0, rot[3] * rot[3]>>
 LawInvValid == Inv(rot) \in Rot /\ Inv(Inv(rot))[1] = rot[1] /\ Inv(Inv(rot))[2] = rot[2]
@@ -67,11 +83,11 @@ LawUndoOne == rot \in AlgRot => \A p \in ScopePts : UndoOneLaw(rot, t, p)
 LawUnion ==
     LET K == Children(W, tgt)
     IN \A i \in DOMAIN W :
-         /\ ~InScope(tgt, W[i]) => TR(W, tgt, t, rot)[i] = Unmoved(W[i], rot) /\ \A k \in K : ~InScope(k, W[i])
-         /\ InScope(tgt, W[i]) /\ W[i].path # tgt =>          \* stored below the target: moved by exactly one part
+         /\ ~InScope(tgt, W[i]) => TRComp(W[i], tgt, t, rot) = Unmoved(W[i], rot) /\ \A k \in K : ~InScope(k, W[i])
+         /\ InScope(tgt, W[i]) /\ W[i].path # tgt /\ Level(W[i].path) # "occupancy_query" =>   \* (a query result is derived, no part)          \* stored below the target: moved by exactly one part
               /\ Cardinality({k \in K : InScope(k, W[i])}) = 1
-              /\ \A k \in K : InScope(k, W[i]) => TR(W, tgt, t, rot)[i] = TR(W, k, t, rot)[i]
-         /\ W[i].path = tgt => TR(W, tgt, t, rot)[i] = Moved(W[i], t, rot)     \* stored by the target itself
+              /\ \A k \in K : InScope(k, W[i]) => TRComp(W[i], tgt, t, rot) = TRComp(W[i], k, t, rot)
+         /\ W[i].path = tgt => TRComp(W[i], tgt, t, rot) = Moved(W[i], t, rot)     \* stored by the target itself
 (* the identity motion fixes everything; a non-trivial rotation fixes no direction                           *)
 LawIdentity == (rot[1] = rot[3] /\ t = <<0, 0>>) => \A c \in ScopeComps : Moved(c, t, rot) = Unmoved(c, rot)
 
@@ -81,13 +97,29 @@ ImplImage(r, tt, p) ==
     IN <<cc * (p[1] + tt[1]) - r[2] * (p[2] + tt[2]), r[2] * (p[1] + tt[1]) + cc * (p[2] + tt[2])>>
 ImplMoved(c) == IF DEV_EnvironmentNotMoved /\ c.kind = "env_shape" THEN Unmoved(c, rot)
                 ELSE [pts |-> [i \in DOMAIN c.pts |-> ImplImage(rot, t, c.pts[i])],
-                      oris |-> [i \in DOMAIN c.oris |-> AngleSum(c.oris[i], rot)]]
+                      oris |-> [i \in DOMAIN c.oris |-> AngleSum(c.oris[i], rot)],
+                      vels |-> Moved(c, t, rot).vels]
 LawImplConforms == \A c \in ScopeComps : ImplMoved(c) = Moved(c, t, rot)
 LawImplRigid == \A p \in ScopePts : \A q \in ScopePts :
                     Safe(rot, p, q) => Dist2(ImplImage(rot, t, p), ImplImage(rot, t, q)) = rot[3] * rot[3] * Dist2(p, q)
 
+(* the laws as invariants: they speak about case states only *)
+G_TypeOK == Live => TypeOK
+G_LawDist == Live => LawDist
+G_LawArea == Live => LawArea
+G_LawUnit == Live => LawUnit
+G_LawVel == Live => LawVel
+G_LawInv == Live => LawInv
+G_LawInvValid == Live => LawInvValid
+G_LawUndoTwo == Live => LawUndoTwo
+G_LawUndoOne == Live => LawUndoOne
+G_LawUnion == Live => LawUnion
+G_LawIdentity == Live => LawIdentity
+G_LawImplConforms == Live => LawImplConforms
+G_LawImplRigid == Live => LawImplRigid
+
 (* ---- generation ---- *)
-Emit == PrintT(<<"CASE", ToJson([tgt |-> tgt, t |-> t, rot |-> rot, mix |-> mix, undo |-> undo,
+Emit == Live => PrintT(<<"CASE", ToJson([tgt |-> tgt, t |-> t, rot |-> rot, mix |-> mix, undo |-> undo,
                                   steps |-> IF undo = "none" THEN <<>> ELSE UndoSteps(t, rot, undo),
                                   cls |-> AngleClass(rot), level |-> Level(tgt)])>>)
 =================================================================================
